@@ -100,6 +100,10 @@ func (g *vcgen) loadGlobalIn(gl *ssa.Global, s *State) string {
 	}
 	vn := g.globalVarName(gl)
 	g.stateVar(vn, g.s.sortOf(elem))
+	if !g.declared["wit:"+vn] && s.formal == nil {
+		g.declared["wit:"+vn] = true
+		g.addWitness("old("+gl.Name()+")", g.base(vn))
+	}
 	return g.get(s, vn)
 }
 
